@@ -161,6 +161,7 @@ func Run(cfg hx.Config) error {
 	h.bdbStream()
 	h.bdbFanStream()
 	h.fieldSweepStream()
+	h.xdbStream()
 	h.dlexStream()
 	h.ndbStream()
 	return nil
